@@ -427,12 +427,13 @@ func (w *World) oracleC10(s *Snap) {
 	self := 0
 	check := func(h Hash, v *accountant.Vertex, live bool) {
 		t := &v.Transaction
-		if t.IssuerAddress == v.SignerPublicAddress {
+		// the rules speak of wallets: two address strings that decode to the same key are the same wallet
+		if sameWalletAddr(t.IssuerAddress, v.SignerPublicAddress) {
 			self++
 			if !isGenesisShape(v) {
 				w.violate("C10", "self-sealed", "non-genesis-vertex-issued-by-its-sealer", n, "vertex %s", hx(h))
 			}
-		} else if t.IssuerAddress == s.Genesis && s.Genesis != "" {
+		} else if s.Genesis != "" && sameWalletAddr(t.IssuerAddress, s.Genesis) {
 			w.violate("C10", "genesis-spends", "genesis-wallet-is-issuer", n, "vertex %s", hx(h))
 		}
 		if !isTransfer(t) && len(t.Data) == 0 {
@@ -677,4 +678,14 @@ func checksum4(body []byte) []byte {
 	h1 := sha256.Sum256(body)
 	h2 := sha256.Sum256(h1[:])
 	return h2[:4]
+}
+
+// sameWalletAddr: equal address strings, or two valid addresses of the same public key.
+func sameWalletAddr(a, b string) bool {
+	if a == b {
+		return true
+	}
+	ka, oka := addrKey(a)
+	kb, okb := addrKey(b)
+	return oka && okb && bytes.Equal(ka, kb)
 }
